@@ -1220,8 +1220,28 @@ ReshapeArgsDrift(ev) ==
      \cup (IF m.ok /\ ev.outcome = "ok"
            THEN F(t.plan.unfuse = m.unfuse /\ t.plan.fuse = m.fuse /\ t.plan.expand = m.expand, "L2.reshape_args.plan")
            ELSE {})
+\* decompositions: the recorded factors have the skeleton the code builds around LAPACK's numbers
+LinalgDrift(ev, pre) ==
+  LET x == Ins(ev, pre, 1)
+      ok(k) == Len(ev.out) >= k /\ (IsArray(Outs(ev, k)) \/ IsVector(Outs(ev, k)))
+  IN IF ev.outcome = "raise" \/ ~IsArray(x) \/ Rank(x) # 2 \/ ~Valid(x) THEN {}
+     ELSE CASE ev.op = "qr" ->
+                 IF ok(1) /\ ok(2) THEN {"L2+qr"} \cup F(SkelEq(LeftFactorSkel(x), Outs(ev, 1)), "L2.qr.q")
+                                                  \cup F(SkelEq(RightFactorSkel(x), Outs(ev, 2)), "L2.qr.r") ELSE {}
+            [] ev.op = "svd" ->
+                 IF ok(1) /\ ok(2) /\ ok(3) THEN {"L2+svd"} \cup F(SkelEq(LeftFactorSkel(x), Outs(ev, 1)), "L2.svd.u")
+                                                  \cup F(VecSkelEq(ValuesSkel(x), Outs(ev, 2)), "L2.svd.s")
+                                                  \cup F(SkelEq(RightFactorSkel(x), Outs(ev, 3)), "L2.svd.vh") ELSE {}
+            [] ev.op = "eigh" ->
+                 IF ok(1) /\ ok(2) /\ x.charge = Zero THEN {"L2+eigh"} \cup F(VecSkelEq(ValuesSkel(x), Outs(ev, 1)), "L2.eigh.w")
+                                                  \cup F(SkelEq(EighVectorsSkel(x), Outs(ev, 2)), "L2.eigh.v") ELSE {}
+            [] ev.op = "solve" ->
+                 LET b == Ins(ev, pre, 2) IN
+                 IF ok(1) /\ IsArray(b) /\ Rank(b) = 1 /\ Valid(b) THEN {"L2+solve"} \cup F(SkelEq(SolveSkel(x, b), Outs(ev, 1)), "L2.solve.x") ELSE {}
+            [] OTHER -> {}
 EventDrift(ev, pre) ==
   IF ev.op \in {"group_pairs", "group_assoc", "sectors"} THEN TableDrift(ev)
+  ELSE IF ev.op \in {"qr", "svd", "eigh", "solve"} /\ ev.in # <<>> THEN LinalgDrift(ev, pre)
   ELSE IF ev.op = "reshape_args" THEN ReshapeArgsDrift(ev)
   ELSE IF ev.op = "threads_run" THEN ThreadsDrift(ev)
   ELSE IF ev.op = "init" /\ Has(ev.args, "descs")
